@@ -65,26 +65,29 @@ func (i StringsInspector) SetWithBuffer(dst, value any, buf AccumulativeBuffer, 
 	if idx < 0 {
 		return nil
 	}
-	var p []byte
+	var (
+		p   []byte
+		set bool
+	)
 	switch {
 	case len(ss) > 0 && idx < len(ss):
 		switch value.(type) {
 		case string:
-			p = byteconv.S2B(value.(string))
+			p, set = byteconv.S2B(value.(string)), true
 		case *string:
-			p = byteconv.S2B(*value.(*string))
+			p, set = byteconv.S2B(*value.(*string)), true
 		}
-		if len(p) > 0 {
+		if set {
 			ss[idx] = byteconv.B2S(buf.Bufferize(p))
 		}
 	case len(pp) > 0 && idx < len(pp):
 		switch value.(type) {
 		case []byte:
-			p = value.([]byte)
+			p, set = value.([]byte), true
 		case *[]byte:
-			p = *value.(*[]byte)
+			p, set = *value.(*[]byte), true
 		}
-		if len(p) > 0 {
+		if set {
 			pp[idx] = buf.Bufferize(p)
 		}
 	}
